@@ -236,6 +236,7 @@ def protocol_cases(tier):
     for t, n, m in ((5, 10, 2), (4, 10, 2), (3, 8, 4), (2, 9, 4), (0, 9, 5), (3, 10, 5), (6, 8, 4)):
         d = {"N": n, "M": m, "BN": 15, "KERNEL": "F_vk_st_set_protocol", "OP_SET_PROTOCOL": 1, "SH_TYPE": t, "SH_OPAQUE": 0, "SH_HASH": 0, "SH_SEARCH": 0}
         _step_obl(o, "set_protocol", "vk_st_set_protocol", n, m, d, f"_t{t}x", "", False, "default", tier)
+        o[-1].mem_gb = 30
     return o
 
 
